@@ -565,13 +565,24 @@ fn wall_limit() -> Duration {
     )
 }
 
-/// Run all requests in isolated workers; a worker that stalls or dies is replaced.
+/// Run all requests in isolated workers; a worker that stalls or dies is replaced. A `hang wall` verdict of
+/// the parallel pass is not final: on a loaded machine a budget-limited evaluation (a few seconds in a debug
+/// build) can exceed the wall limit, so every such request is run once more, alone, with six times the limit.
 fn run_isolated(requests: Vec<String>, jobs: usize) -> Vec<String> {
+    let mut out = run_isolated_pass(requests.clone(), jobs, wall_limit());
+    let again: Vec<usize> = (0..out.len()).filter(|i| out[*i] == "hang wall").collect();
+    for i in again {
+        let r = run_isolated_pass(vec![requests[i].clone()], 1, wall_limit() * 6);
+        out[i] = r[0].clone();
+    }
+    out
+}
+
+fn run_isolated_pass(requests: Vec<String>, jobs: usize, limit: Duration) -> Vec<String> {
     let n = requests.len();
     let requests = Arc::new(requests);
     let results: Arc<Mutex<Vec<Option<String>>>> = Arc::new(Mutex::new(vec![None; n]));
     let next = Arc::new(AtomicUsize::new(0));
-    let limit = wall_limit();
     let mut handles = vec![];
     for _ in 0..jobs.max(1).min(n.max(1)) {
         let requests = requests.clone();
